@@ -47,8 +47,8 @@ func mergeBuilderInto(fromBuilder ast.Builder, intoBuilder ast.Builder, underPat
 			continue
 		}
 
-		newAssignment := assignment
-		newAssignment.Path = underPath.Append(assignment.Path)
+		newAssignment := assignment.DeepCopy()
+		newAssignment.Path = underPath.DeepCopy().Append(newAssignment.Path)
 		newBuilder.Constructor.Assignments = append(newBuilder.Constructor.Assignments, newAssignment)
 	}
 
@@ -58,7 +58,8 @@ func mergeBuilderInto(fromBuilder ast.Builder, intoBuilder ast.Builder, underPat
 			continue
 		}
 
-		newOpt := opt
+		// the merged option is a copy: it must not share anything with the source builder.
+		newOpt := opt.DeepCopy()
 		newOpt.Assignments = nil
 
 		if as, found := renameOptions[newOpt.Name]; found {
@@ -66,8 +67,8 @@ func mergeBuilderInto(fromBuilder ast.Builder, intoBuilder ast.Builder, underPat
 		}
 
 		for _, assignment := range opt.Assignments {
-			newAssignment := assignment
-			newAssignment.Path = underPath.Append(assignment.Path)
+			newAssignment := assignment.DeepCopy()
+			newAssignment.Path = underPath.DeepCopy().Append(newAssignment.Path)
 
 			newOpt.Assignments = append(newOpt.Assignments, newAssignment)
 		}
@@ -123,8 +124,10 @@ func composeBuilderForType(schemas ast.Schemas, builders ast.Builders, config Co
 		Package:     composableBuilders[0].Package,
 		For:         sourceBuilder.For,
 		Name:        sourceBuilder.For.Name,
-		Constructor: sourceBuilder.Constructor,
-		Properties:  sourceBuilder.Properties,
+		Constructor: sourceBuilder.Constructor.DeepCopy(),
+	}
+	for _, property := range sourceBuilder.Properties {
+		newBuilder.Properties = append(newBuilder.Properties, property.DeepCopy())
 	}
 	if config.ComposedBuilderName != "" {
 		newBuilder.Name = config.ComposedBuilderName
@@ -150,7 +153,7 @@ func composeBuilderForType(schemas ast.Schemas, builders ast.Builders, config Co
 			continue
 		}
 
-		newBuilder.Options = append(newBuilder.Options, panelOpt)
+		newBuilder.Options = append(newBuilder.Options, panelOpt.DeepCopy())
 	}
 
 	composedBuilders := make([]ast.Builder, 0, len(composableBuilders))
